@@ -61,7 +61,23 @@ class C16Geometry1D(Harness):
         return {"dens": _tolist(h.densities), "sizes": _tolist(h.bin_sizes), "widths": _tolist(h.bin_widths), "centers": _tolist(h.bin_centers),
                 "left": _tolist(h.bin_left_edges), "right": _tolist(h.bin_right_edges), "min_edge": h.min_edge, "max_edge": h.max_edge,
                 "total_width": h.total_width, "cum": _tolist(h.cumulative_frequencies), "total": h.total, "bins": _tolist(h.bins),
-                "errors": None}
+                "errors": None, "edges_view": self._edges_view(E, h), "slice_edges": self._slice_after_read(E, h, p["M"])}
+
+    @staticmethod
+    def _edges_view(E, h):
+        r = E.attempt(lambda: h.edges)
+        return {"raised": r} if isinstance(r, Raised) else _tolist(r)
+
+    @staticmethod
+    def _slice_after_read(E, h, M):
+        """Edges of the slice h[0:M-1] taken AFTER the source's edges were read (cached views must not leak into the slice)."""
+        if M < 2:
+            return None
+        sub = E.attempt(lambda: h[0:M - 1])
+        if isinstance(sub, Raised):
+            return {"raised": sub}
+        e = E.attempt(lambda: sub.edges)
+        return {"bins": _tolist(sub.bins), "edges": {"raised": e} if isinstance(e, Raised) else _tolist(e)}
 
     def oracle(self, cx, p, x, obs):
         M = p["M"]
@@ -77,6 +93,16 @@ class C16Geometry1D(Harness):
             yield f"center[{j}]", cx.eq(obs["centers"][j], (L[j] + R[j]) / 2)
             yield f"density[{j}]", cx.quot_eq(obs["dens"][j], f[j], obs["sizes"][j])
             yield f"cumulative[{j}]", cx.eq(obs["cum"][j], zsum(f[: j + 1]))
+        ev = obs["edges_view"]
+        if p["gap"]:
+            # numpy-style edges cannot describe bins with a gap: refused, never a list that swallows the gap
+            yield "edges_refused_for_gapped_bins", isinstance(ev, dict)
+        else:
+            yield "edges_view", (not isinstance(ev, dict)) and len(ev) == M + 1 and z3.And([cx.eq(ev[0], L[0])] + [cx.eq(ev[j + 1], R[j]) for j in range(M)])
+        se = obs["slice_edges"]
+        if se is not None and not p["gap"]:
+            ok = "raised" not in se and not isinstance(se["edges"], dict) and len(se["edges"]) == M and len(se["bins"]) == M - 1
+            yield "slice_edges_describe_the_slice", z3.And([cx.eq(se["edges"][0], L[0])] + [cx.eq(se["edges"][j + 1], R[j]) for j in range(M - 1)]) if ok else False
         yield "min_max_edge", z3.And(cx.eq(obs["min_edge"], L[0]), cx.eq(obs["max_edge"], R[-1]))
         yield "total_width", cx.eq(obs["total_width"], zsum(R[j] - L[j] for j in range(M)))
         yield "cumulative_ends_at_total", z3.And(cx.eq(obs["cum"][-1], cx.t(obs["total"])), cx.eq(obs["total"], zsum(f)))
